@@ -224,7 +224,7 @@ pub fn run(ctx: &Ctx) {
                 for alter in [Alter::TagBit(0), Alter::TagBit(127), Alter::BodyByte(0), Alter::BodyByte(31), Alter::DropLast, Alter::Ad] {
                     for bufsize in 0..4u8 {
                         k += 1;
-                        if ctx.tier.pick((k + suite_idx as u64) % 3 != 0, false) {
+                        if ctx.tier.pick((k + suite_idx as u64) % 2 != 0, false) {
                             continue;
                         }
                         cases.push(Case { path: path.clone(), suite_idx, backend, plen: [32usize, 33, 64, 100, 1000, 4096][(k % 6) as usize], alter, bufsize, seed: mix(ctx.seed, k) });
@@ -237,7 +237,7 @@ pub fn run(ctx: &Ctx) {
     ctx.run_list("enumerated", &cases, false, oracle);
     ctx.run_prop(
         "random",
-        ctx.tier.pick(6000, 200_000),
+        ctx.tier.pick(20_000, 300_000),
         || {
             let ps = paths();
             let alter = prop_oneof![3 => any::<u8>().prop_map(Alter::TagBit), 3 => any::<u16>().prop_map(Alter::BodyByte), 1 => Just(Alter::DropLast), 1 => Just(Alter::Ad)];
